@@ -198,6 +198,7 @@ type worker struct {
 	// published trail for watchdog / crash recovery
 	region  []byte
 	seq     uint64
+	runs    uint64 // every run started, skipped ones included: progress for the watchdog
 	inCase  int32
 	curPh   int
 	curSize int
@@ -286,22 +287,28 @@ func cpuSeconds() float64 {
 }
 
 func (w *worker) watchdog(limit float64) {
-	var lastSeq uint64
+	var lastSeq, lastRuns uint64
 	var stuck float64
 	lastCPU := cpuSeconds()
 	for {
 		time.Sleep(200 * time.Millisecond)
 		s := atomic.LoadUint64(&w.seq)
+		r := atomic.LoadUint64(&w.runs)
 		now := cpuSeconds()
-		if s == lastSeq && atomic.LoadInt32(&w.inCase) == 1 {
+		if s == lastSeq && r == lastRuns && atomic.LoadInt32(&w.inCase) == 1 {
 			stuck += now - lastCPU
 		} else {
 			stuck = 0
 		}
-		lastSeq, lastCPU = s, now
+		lastSeq, lastRuns, lastCPU = s, r, now
 		if stuck >= limit {
 			ph, size, trail, ok := readRegion(w.region)
-			w.emit(map[string]interface{}{"t": "hang", "ok": ok, "ph": ph, "size": size, "trail": trailString(trail), "cpu": stuck, "stats": w.stats, "perkey": w.perKey})
+			buf := make([]byte, 1<<16)
+			buf = buf[:runtime.Stack(buf, true)]
+			if len(buf) > 6000 {
+				buf = buf[:6000]
+			}
+			w.emit(map[string]interface{}{"t": "hang", "ok": ok, "stack": string(buf), "ph": ph, "size": size, "trail": trailString(trail), "cpu": stuck, "stats": w.stats, "perkey": w.perKey})
 			w.flush()
 			os.Exit(3)
 		}
@@ -417,6 +424,7 @@ func (w *worker) runOne(ph *Phase, x *Ctx, c *Chooser) (leaf bool) {
 		x.st.Leaves++
 		w.violation(x, "panic", "panic:"+site+":"+PanicClass(msg), Detail{Observed: "panic: " + msg, Note: "top /repo frame " + site + "; case rendered on replay"})
 	}()
+	atomic.AddUint64(&w.runs, 1)
 	atomic.StoreInt32(&w.inCase, 1)
 	ph.Run(c, x, x.size)
 	if !c.done {
@@ -457,10 +465,13 @@ func WorkerMain(propID, tier string, idx, n, seed int, deadlineUnix int64, after
 	}
 	limit := p.HangCPU
 	if limit == 0 {
-		limit = 10
+		limit = 20
 	}
 	if replay != "" {
 		limit *= 2
+	}
+	if f, err := strconv.ParseFloat(os.Getenv("VERIF_HANG_FACTOR"), 64); err == nil && f > 0 {
+		limit *= f
 	}
 	go w.watchdog(limit)
 
